@@ -3,3 +3,6 @@ import GFS.Props.C11Gen
 import GFS.Props.C17
 import GFS.Props.C12
 import GFS.Props.C02
+import GFS.Props.C01
+import GFS.Props.C03
+import GFS.Props.C04
